@@ -43,6 +43,7 @@ def run(chk, repo):
     chk.attempt(_t1, chk, repo, g, mod, gi, where)
     chk.attempt(_t2, chk, repo, g, mod)
     chk.attempt(_t34, chk, repo, g)
+    chk.attempt(locked_loads, chk, repo)
     chk.count("functions", len(g.funcs))
 
 
@@ -339,3 +340,90 @@ def handle_leaks(repo, fi, h, seen):
         if any(isinstance(x, ast.Name) and x.id == h for x in ast.walk(lam.node)) and h not in lam.params:
             leaks.append(f"{fi.qualname}: captured by {lam.qualname}")
     return leaks
+
+
+REAL_LOCKS = ("SerializableLock", "Lock", "RLock", "CombinedLock")
+NOOP_LOCKS = ("DummyLock", "nullcontext")
+
+
+def locked_loads(chk, repo):
+    """C19-T6: to_variable evaluated on model image variables (one chunk; several chunks), then one load through the wrapper it
+    built: at the moment the array is indexed a real lock is held.  fsspec's in-memory file system hands the SAME file object to
+    every open, so two loads of one variable that are not serialised seek and read on each other's position; a no-op lock (or none)
+    on some path is that race."""
+    from collections import OrderedDict
+    from ..shapes import Const, DictS, Fn, Interp, ListLit, Obj, ShapeError, TupS, _Raise
+    xm = repo.module("ceos_alos2.xarray")
+    where = f"{xm.relpath}:to_variable"
+    chk.rule("C19-T6", "every load through the backend wrapper indexes the array while a real (not a no-op) lock is held, for single- and multi-chunk images alike", 2)
+    arr_cls = repo.resolve_module_name(xm, "Array")
+    var_cls = repo.resolve_module_name(repo.module("ceos_alos2.hierarchy"), "Variable")
+    if arr_cls.kind != "class" or var_cls.kind != "class":
+        raise AnalysisError("anchor vanished: Array / Variable classes as seen from ceos_alos2.xarray")
+    for n_chunks in (1, 3):
+        I = Interp(repo)
+        sc = I.module_scope(xm)
+        held = [0]
+        seen = []
+
+        def real_lock(I_, a, kw):
+            lk = Obj("Lock", OrderedDict(kind=Const("real")))
+
+            def enter(I2, a2, k2):
+                held[0] += 1
+                return lk
+
+            def leave(I2, a2, k2):
+                held[0] -= 1
+                return Const(None)
+            lk.fields["__enter__"] = Fn("py", impl=enter, name="__enter__")
+            lk.fields["__exit__"] = Fn("py", impl=leave, name="__exit__")
+            lk.fields["acquire"] = Fn("py", impl=lambda I2, a2, k2: (enter(I2, a2, k2), Const(True))[1], name="acquire")
+            lk.fields["release"] = Fn("py", impl=leave, name="release")
+            return lk
+
+        def noop_lock(I_, a, kw):
+            lk = Obj("Lock", OrderedDict(kind=Const("no-op")))
+            lk.fields["__enter__"] = Fn("py", impl=lambda I2, a2, k2: lk, name="__enter__")
+            lk.fields["__exit__"] = Fn("py", impl=lambda I2, a2, k2: Const(None), name="__exit__")
+            lk.fields["acquire"] = Fn("py", impl=lambda I2, a2, k2: Const(True), name="acquire")
+            lk.fields["release"] = Fn("py", impl=lambda I2, a2, k2: Const(None), name="release")
+            return lk
+        for name in list(xm.imports):
+            r = repo.resolve_module_name(xm, name)
+            last = r.fq.split(".")[-1] if r.kind == "external" else None
+            if last in REAL_LOCKS:
+                sc.vars[name] = Fn("py", impl=real_lock, name=name)
+            elif last in NOOP_LOCKS:
+                sc.vars[name] = Fn("py", impl=noop_lock, name=name)
+        wrapped = {}
+        sc.vars["xr"] = Obj("xarray", OrderedDict(Variable=Fn("py", impl=lambda I_, a, k: Obj("xrVariable", OrderedDict()), name="xr.Variable")))
+        sc.vars["np"] = Obj("numpy", OrderedDict(dtype=Fn("py", impl=lambda I_, a, k: a[0] if a else Const(None), name="np.dtype")))
+
+        def lazily(I_, a, kw):
+            wrapped["w"] = a[0] if a else kw.get("array")
+            return Obj("LazilyIndexedArray", OrderedDict(array=wrapped["w"]))
+        sc.vars["indexing"] = Obj("indexing", OrderedDict(LazilyIndexedArray=Fn("py", impl=lazily, name="LazilyIndexedArray")))
+        sc.vars["extract_encoding"] = Fn("py", impl=lambda I_, a, k: DictS(), name="extract_encoding")
+
+        def getitem(I_, a, kw):
+            seen.append(held[0])
+            return Obj("Block", OrderedDict())
+        offsets = DictS(OrderedDict((i, DictS(OrderedDict(offset=Const(720 + 100 * i), size=Const(100)))) for i in range(n_chunks)))
+        data = Obj("Array", OrderedDict(shape=Const((n_chunks * 2, 4)), dtype=Const("uint16"), chunk_offsets=offsets, records_per_chunk=Const(2), chunks=Const((2, 4)), byte_ranges=ListLit([]), url=Const("IMG-X"),
+                                        __getitem__=Fn("py", impl=getitem, name="__getitem__")), klass=(arr_cls.mod, arr_cls.node))
+        var = Obj("Variable", OrderedDict(dims=ListLit([Const("rows"), Const("columns")]), data=data, attrs=DictS()), klass=(var_cls.mod, var_cls.node))
+        label = f"an image of {n_chunks} chunk(s)"
+        try:
+            I.call(I.lookup("to_variable", sc), [var], {})
+            w = wrapped.get("w")
+            if not isinstance(w, Obj):
+                raise ShapeError("to_variable does not wrap the array in LazilyIndexedArray(<wrapper>)")
+            I.call(I.getattr(w, "_raw_indexing_method"), [TupS([Const(slice(0, 2, 1)), Const(slice(None))])], {})
+        except (ShapeError, _Raise, RecursionError) as e:
+            raise AnalysisError(f"{where}: the lazy wrapping / a load through it cannot be evaluated on {label}: {str(e)[:140]}")
+        if not seen:
+            raise AnalysisError(f"{where}: a load through the wrapper does not index the array ({label}); not decided")
+        chk.require(all(h >= 1 for h in seen), "C19-T6", where, f"{label}: the array is indexed while a real lock is held",
+                    f"{label}: the array is indexed with no real lock held (the lock is a no-op, is missing, or is released before the read): on a file system that shares one file object between opens "
+                    f"(fsspec memory://) two loads of this variable seek and read on each other's position", key=f"locked-load:{'single' if n_chunks == 1 else 'multi'}-chunk")
